@@ -405,3 +405,80 @@ func VerifC13OneMarshalerPerType() {
 	verif.Assert("C13/at-most-one-MarshalJSON-per-type", nm <= 1 && nu <= 1)
 	verif.Reach("C13/marshalers/decided")
 }
+
+// c13PrintfProblem: a fmt.Errorf/Sprintf call whose constant format has fewer verbs than
+// the call has operands (what `go vet`'s printf check, run by `go test`, rejects).
+func c13PrintfProblem(lines []string) string {
+	for _, l := range lines {
+		for _, fn := range []string{"fmt.Errorf(\"", "fmt.Sprintf(\""} {
+			i := strings.Index(l, fn)
+			if i < 0 {
+				continue
+			}
+			rest := l[i+len(fn):]
+			// end of the format literal
+			j := 0
+			for j < len(rest) && !(rest[j] == '"' && (j == 0 || rest[j-1] != '\\')) {
+				j++
+			}
+			if j >= len(rest) {
+				continue
+			}
+			format, args := rest[:j], rest[j+1:]
+			verbs := 0
+			for k := 0; k < len(format); k++ {
+				if format[k] == '%' {
+					if k+1 < len(format) && format[k+1] == '%' {
+						k++
+						continue
+					}
+					verbs++
+				}
+			}
+			// operands: top-level commas before the closing parenthesis of the call
+			depth, nargs, inStr := 0, 0, false
+			for k := 0; k < len(args); k++ {
+				c := args[k]
+				switch {
+				case inStr:
+					if c == '"' && args[k-1] != '\\' {
+						inStr = false
+					}
+				case c == '"':
+					inStr = true
+				case c == '(' || c == '[' || c == '{':
+					depth++
+				case c == ')' || c == ']' || c == '}':
+					if depth == 0 {
+						k = len(args)
+						break
+					}
+					depth--
+				case c == ',' && depth == 0:
+					nargs++
+				}
+			}
+			if verbs != nargs {
+				return l
+			}
+		}
+	}
+	return ""
+}
+
+// VerifC13PrintfArity: every formatted-error call the codec emitters print has as many
+// verbs as operands, for every codec feature (both Go generators).
+func VerifC13PrintfArity() {
+	feature := verif.Choice("feature", 9)
+	c14Concrete = true
+	file, _ := c14File(feature, true)
+	ps, pc := &protogen.Plugin{Files: []*protogen.File{file}}, &protogen.Plugin{Files: []*protogen.File{file}}
+	verif.Assert("C13/printf/server-accepts", New(ps).Generate() == nil)
+	verif.Assert("C13/printf/client-accepts", clientgen.VerifGenerateWith(pc) == nil)
+	for _, t := range append(verif.Trace(ps), verif.Trace(pc)...) {
+		p := c13PrintfProblem(t.Lines)
+		verif.Show("line", p)
+		verif.Assert("C13/printf/verbs-match-operands", p == "")
+	}
+	verif.Reach("C13/printf/decided")
+}
